@@ -151,9 +151,21 @@ def run(ctx: Ctx) -> None:
     if wo is None:
         raise AnalysisError("EmulatorInstance._with_option vanished")
     rets = [r.value for r in walk_no_nested(wo.node) if isinstance(r, ast.Return)]
-    ok = len(rets) == 1 and isinstance(rets[0], ast.Call) and call_name(rets[0]) == "replace" and dotted(rets[0].args[0]) == "self" \
-        and any(k.arg == "_options" and isinstance(k.value, ast.Call) and call_name(k.value) == "replace"
-                and ast.unparse(k.value.args[0]) == "self._options" for k in rets[0].keywords)
+    single: dict[str, list] = {}
+    for n in walk_no_nested(wo.node):
+        if isinstance(n, ast.Assign) and len(n.targets) == 1 and isinstance(n.targets[0], ast.Name):
+            single.setdefault(n.targets[0].id, []).append(n.value)
+
+    def through_local(e):
+        # a local bound exactly once stands for its value (`new_options = replace(...)` ... `_options=new_options`)
+        while isinstance(e, ast.Name) and len(single.get(e.id, ())) == 1:
+            e = single[e.id][0]
+        return e
+
+    ret0 = through_local(rets[0]) if len(rets) == 1 else None
+    ok = isinstance(ret0, ast.Call) and call_name(ret0) == "replace" and bool(ret0.args) and dotted(ret0.args[0]) == "self" \
+        and any(k.arg == "_options" and isinstance(through_local(k.value), ast.Call) and call_name(through_local(k.value)) == "replace"
+                and ast.unparse(through_local(k.value).args[0]) == "self._options" for k in ret0.keywords)
     ctx.check(ok, "R-C28.2", f"{wo.qualname}#pure-replace", wo.where, {"returns": [ast.unparse(r) for r in rets if r is not None]},
               "_with_option does not build a new configuration from a new options object")
     derive = [(n, f) for n, f in sorted(inst.methods.items()) if n.startswith("with_") or n.endswith("_sim")]
